@@ -66,9 +66,10 @@ pub fn generate(spec: &CorpusSpec) -> Vec<String> {
         for i in lo..hi {
             let p = &spec.programs[i];
             src.push_str(&format!(
-                "    v.push(vrt::explore::Entry {{ prog: all[{i}].clone(), run: {}::<p{i}::R{}> }});\n",
+                "    v.push(vrt::explore::Entry {{ prog: all[{i}].clone(), run: {}::<p{i}::R{}>, aux: {} }});\n",
                 runner_path(p.root_trait()),
-                p.root
+                p.root,
+                if p.root_trait() == Trait::FromMeta { format!("Some(vrt::run::run_from_none::<p{i}::R{}>)", p.root) } else { "None".to_string() }
             ));
         }
         src.push_str("    v\n}\n");
@@ -133,6 +134,17 @@ pub fn struct_corpus(tier: Tier) -> CorpusSpec {
     }
 }
 
+pub fn enum_corpus(tier: Tier) -> CorpusSpec {
+    let thorough = tier == Tier::Thorough;
+    CorpusSpec {
+        name: format!("enum_{}", if thorough { "t" } else { "q" }),
+        programs_expr: format!("vmodel::corpus::enum_corpus({thorough})"),
+        programs: vmodel::corpus::enum_corpus(thorough),
+        shards: if thorough { 16 } else { 8 },
+        main_call: "vrt::explore::main(entries);".into(),
+    }
+}
+
 pub fn all_specs(tier: Tier) -> Vec<CorpusSpec> {
-    vec![struct_corpus(tier)]
+    vec![struct_corpus(tier), enum_corpus(tier)]
 }
